@@ -10,7 +10,7 @@
 From Coq Require Import QArith Qminmax Reals Permutation SetoidList Sorted Qreals Ranalysis1 Lra.
 From Verif Require Import Prelude Model.Fiber Proofs.Fiber Proofs.FiberR.
 (* no Import: Num's '#' notation would clash with Q's; names from these modules are written qualified *)
-From Verif Require Num Model.Raman Proofs.Raman.
+From Verif Require Num Model.Raman Proofs.Raman Gen.FiberGen Proofs.FiberGen.
 
 (* ================================================================================================
    Raman off — loss budget *)
@@ -281,6 +281,116 @@ Theorem path_contrib_nonneg : forall pi e f c, elem_contrib pi e f = Ok c ->
   0 <= Q2R (d_pmd2 c) /\ 0 <= Q2R (d_pdl2 c).
 Proof. exact Proofs.Raman.elem_contrib_nonneg. Qed.
 Print Assumptions path_contrib_nonneg.
+
+(* ================================================================================================
+   Translator tie: the definitions g_* of Gen/FiberGen.v are re-generated on every run from /repo's source
+   (harness/pygen_c05.py: templates for the plumbing, translation of the arithmetic); they equal the models. *)
+Open Scope R_scope.
+Notation NumR := Num.NumR.
+
+(* Fiber.propagate: the three attenuations, in that order, are the budget applied by the model *)
+Theorem C05_source_fiber_power : forall fib f p a out, loss_coef_at fib f = Ok a -> fiber_power_out fib f p = Ok out ->
+  Q2R out = @FiberGen.g_fiber_power_db NumR (Q2R (f_con_in fib)) (Q2R (f_att_in fib)) (Q2R (f_con_out fib))
+                                       (Q2R (attenuation_db fib a)) (Q2R p).
+Proof. exact Proofs.FiberGen.gen_fiber_power. Qed.
+Print Assumptions C05_source_fiber_power.
+
+(* Fiber.propagate / RamanFiber.propagate: PMD in quadrature; CD and latency added *)
+Theorem C05_source_fiber_pmd_update : forall x y : R,
+  @FiberGen.g_fiber_pmd_update NumR x y = sqrt (x * x + y * y).
+Proof. exact Proofs.FiberGen.gen_fiber_pmd_update. Qed.
+Print Assumptions C05_source_fiber_pmd_update.
+
+Theorem C05_source_ramanfiber_pmd_update : forall x y : R,
+  @FiberGen.g_ramanfiber_pmd_update NumR x y = sqrt (x * x + y * y).
+Proof. exact Proofs.FiberGen.gen_ramanfiber_pmd_update. Qed.
+Print Assumptions C05_source_ramanfiber_pmd_update.
+
+Theorem C05_source_ramanfiber_is_fiber : forall ci ai co s p x y cd lat scd slat : R,
+  @FiberGen.g_ramanfiber_power_db NumR ci ai co s p = @FiberGen.g_fiber_power_db NumR ci ai co s p /\
+  @FiberGen.g_ramanfiber_pmd_update NumR x y = @FiberGen.g_fiber_pmd_update NumR x y /\
+  @FiberGen.g_ramanfiber_cd_lat_update NumR cd lat scd slat = @FiberGen.g_fiber_cd_lat_update NumR cd lat scd slat.
+Proof. exact Proofs.FiberGen.gen_ramanfiber_is_fiber. Qed.
+Print Assumptions C05_source_ramanfiber_is_fiber.
+
+Theorem C05_source_fiber_cd_lat : forall (a : acc) (c : contrib),
+  (Q2R (a_cd (add_contrib a c)), Q2R (a_lat (add_contrib a c))) =
+  @FiberGen.g_fiber_cd_lat_update NumR (Q2R (a_cd a)) (Q2R (a_lat a)) (Q2R (d_cd c)) (Q2R (d_lat c)).
+Proof. exact Proofs.FiberGen.gen_fiber_cd_lat. Qed.
+Print Assumptions C05_source_fiber_cd_lat.
+
+(* Fiber.pmd, Fiber.loss, FiberParams latency, lumped positions *)
+Theorem C05_source_fiber_pmd : forall fib, (0 <= len_m fib)%Q ->
+  @FiberGen.g_fiber_pmd NumR (Q2R (f_pmd_coef fib)) (Q2R (len_m fib)) * @FiberGen.g_fiber_pmd NumR (Q2R (f_pmd_coef fib)) (Q2R (len_m fib)) =
+  Q2R (fiber_pmd2 fib).
+Proof. exact Proofs.FiberGen.gen_fiber_pmd. Qed.
+Print Assumptions C05_source_fiber_pmd.
+
+Theorem C05_source_fiber_loss : forall fib a l, loss_coef_at fib (f_ref fib) = Ok a -> fiber_loss_prop fib = Ok l ->
+  Q2R l = @FiberGen.g_fiber_loss NumR (Q2R a) (Q2R (len_m fib)) (Q2R (f_con_in fib)) (Q2R (f_con_out fib)) (Q2R (f_att_in fib))
+            (map (fun x => @FiberGen.g_lumped_lin NumR x) (map Q2R (map snd (f_lumped fib)))).
+Proof. exact Proofs.FiberGen.gen_fiber_loss. Qed.
+Print Assumptions C05_source_fiber_loss.
+
+Theorem C05_source_latency : forall fib, ~ (f_n1 fib == 0)%Q ->
+  Q2R (fiber_latency fib) = @FiberGen.g_latency NumR (Q2R c_light) (Q2R (len_m fib)) (Q2R (f_n1 fib)).
+Proof. exact Proofs.FiberGen.gen_latency. Qed.
+Print Assumptions C05_source_latency.
+
+Theorem C05_source_lumped_pos : forall fib, map (fun zl => Q2R (fst zl)) (lumped_m fib) =
+  map (fun zl => @FiberGen.g_lumped_pos_m NumR (Q2R (fst zl))) (f_lumped fib).
+Proof. exact Proofs.FiberGen.gen_lumped_pos_m. Qed.
+Print Assumptions C05_source_lumped_pos.
+
+(* Fiber.chromatic_dispersion, beta2, beta3 (pi and c are parameters of the generated terms) *)
+Theorem C05_source_chromatic_dispersion : forall pi fib f v, chromatic_dispersion pi fib f = Ok v ->
+  exists b2 b3, beta2 pi fib f = Ok b2 /\ beta3 pi fib f = Ok b3 /\
+    Q2R v = @FiberGen.g_chromatic_dispersion NumR (Q2R pi) (Q2R c_light) (Q2R b2) (Q2R b3) (Q2R f) (Q2R (f_ref fib)) (Q2R (len_m fib)).
+Proof. exact Proofs.FiberGen.gen_chromatic_dispersion. Qed.
+Print Assumptions C05_source_chromatic_dispersion.
+
+Theorem C05_source_beta2 : forall pi fib f b, ~ (pi == 0)%Q -> ~ (f == 0)%Q -> beta2 pi fib f = Ok b ->
+  exists d, dispersion_at fib f = Ok d /\ Q2R b = @FiberGen.g_beta2 NumR (Q2R pi) (Q2R c_light) (Q2R f) (Q2R d).
+Proof. exact Proofs.FiberGen.gen_beta2. Qed.
+Print Assumptions C05_source_beta2.
+
+Theorem C05_source_dispersion_noslope : forall fib f d, f_disp fib = DispScalar d None -> ~ (f_ref fib == 0)%Q ->
+  exists v, dispersion_at fib f = Ok v /\ Q2R v = @FiberGen.g_dispersion_noslope NumR (Q2R f) (Q2R (f_ref fib)) (Q2R d).
+Proof. exact Proofs.FiberGen.gen_dispersion_noslope. Qed.
+Print Assumptions C05_source_dispersion_noslope.
+
+Theorem C05_source_dispersion_slope : forall fib f d s, f_disp fib = DispScalar d (Some s) -> ~ (f == 0)%Q -> ~ (f_ref fib == 0)%Q ->
+  exists v, dispersion_at fib f = Ok v /\
+    Q2R v = @FiberGen.g_dispersion_slope NumR (Q2R c_light) (Q2R f) (Q2R (f_ref fib)) (Q2R d) (Q2R s).
+Proof. exact Proofs.FiberGen.gen_dispersion_slope. Qed.
+Print Assumptions C05_source_dispersion_slope.
+
+Theorem C05_source_beta3_slope : forall pi fib f d s b3, f_disp fib = DispScalar d (Some s) -> ~ (pi == 0)%Q -> ~ (f == 0)%Q ->
+  beta3 pi fib f = Ok b3 ->
+  exists b2, beta2 pi fib f = Ok b2 /\ Q2R b3 = @FiberGen.g_beta3_slope NumR (Q2R pi) (Q2R c_light) (Q2R f) (Q2R s) (Q2R b2).
+Proof. exact Proofs.FiberGen.gen_beta3_slope. Qed.
+Print Assumptions C05_source_beta3_slope.
+
+(* RamanSolver: the Euler update ('numerical' method, rational model and Num model) and the two sweeps of the iterative
+   algorithm are the per-wave update of the models; the backward sweep applies the same arithmetic as the forward one
+   (its indices [-i], dz[-i], lumped_losses[-i] are fixed by the template and mirrored by Raman.bwd_sweep) *)
+Theorem C05_source_euler_step : forall alpha cr dz ll p,
+  map Q2R (euler_step alpha cr dz ll p) =
+  map (fun t : Q * (Q * list Q) => let '(pj, (aj, crj)) := t in
+         @FiberGen.g_euler_wave NumR (Q2R pj) (Q2R aj) (map Q2R crj) (map Q2R p) (Q2R dz) (Q2R ll)) (combine p (combine alpha cr)).
+Proof. exact Proofs.FiberGen.gen_euler_step. Qed.
+Print Assumptions C05_source_euler_step.
+
+Theorem C05_source_iter_sweep : forall (alpha : list R) (cr : list (list R)) (src : list R) (dz ll : R),
+  @Raman.step_col NumR alpha cr src dz ll =
+  map (fun t : R * (R * list R) => let '(p, (a, row)) := t in
+         @FiberGen.g_iter_fwd NumR p (@FiberGen.g_iter_dpdz NumR a row src) dz ll) (combine src (combine alpha cr)).
+Proof. exact Proofs.FiberGen.gen_step_col_iter_R. Qed.
+Print Assumptions C05_source_iter_sweep.
+
+Theorem C05_source_iter_bwd : forall p g dz ll : R, @FiberGen.g_iter_bwd NumR p g dz ll = @FiberGen.g_iter_fwd NumR p g dz ll.
+Proof. exact Proofs.FiberGen.gen_iter_bwd_is_fwd. Qed.
+Print Assumptions C05_source_iter_bwd.
 
 (* ================================================================================================
    non-vacuity: the hypotheses are satisfiable on non-trivial values *)
